@@ -43,7 +43,7 @@ Definition real_scale (fi : finfo) (mantissa be precision : N) (is_fixed : bool)
      let b0 := N.shiftr mantissa first_shift in
      do '(b1, times, shift1, lost) <-
        (if dg_max_pow5 <=? fl then
-          let max_index := if precision <? fi_maxcut fi then precision / dg_max_pow10 + 2 else mi in
+          let max_index := if precision <? fi_maxcut fi then precision / dg_max_pow10 + 3 else mi in
           mul_loop 200 mi max_index b0 fl shift false
         else Ok (b0, fl, shift, false));
      do b2 <- (if negb (times =? 0) then big_mul mi b1 (pow5 times) else Ok b1);
@@ -281,7 +281,7 @@ Proof.
   (* the multiplications *)
   assert (Hmul : (do '(b1, times, shift1, lost) <-
        (if dg_max_pow5 <=? fl' then
-          mul_loop 200 (fi_maxindex fi) (if precision <? fi_maxcut fi then precision / dg_max_pow10 + 2 else fi_maxindex fi) o fl' shift false
+          mul_loop 200 (fi_maxindex fi) (if precision <? fi_maxcut fi then precision / dg_max_pow10 + 3 else fi_maxindex fi) o fl' shift false
         else Ok (o, fl', shift, false));
      do b2 <- (if negb (times =? 0) then big_mul (fi_maxindex fi) b1 (pow5 times) else Ok b1);
      Ok (N.shiftr b2 shift1, fl', lost || (negb (shift1 =? 0) && negb (b2 =? 0) && (ctz b2 <? shift1)))) = Ok (b, fl, ru)
@@ -308,7 +308,7 @@ Proof.
     change dg_max_pow5 with 27 in G.
     destruct (27 <=? fl') eqn:E27.
     - apply N.leb_le in E27.
-      destruct (mul_loop 200 (fi_maxindex fi) (if precision <? fi_maxcut fi then precision / dg_max_pow10 + 2 else fi_maxindex fi) o fl' shift false)
+      destruct (mul_loop 200 (fi_maxindex fi) (if precision <? fi_maxcut fi then precision / dg_max_pow10 + 3 else fi_maxindex fi) o fl' shift false)
         as [[[[b1 t1] s1] l1]|] eqn:EL; [|discriminate]. cbn [bind] in G.
       apply mul_loop_small_shift in EL; [|exact Hs64|exact E27]. destruct EL as [-> [-> [Ht1 Hk]]].
       exact (Hcore b1 t1 Ht1 Hk G).
